@@ -875,68 +875,26 @@ func (p *PairV2) loadAllOrders(immutableTree *iavl.ImmutableTree) (orders []*Lim
 	return orders
 }
 
-func (s *SwapV2) loadBuyOrders(pair *PairV2, fromOrder *Limit, limit int) []uint32 {
+// loadBuyOrders returns the ids of all committed buy orders of the pair in book order, followed
+// by the end marker 0. Orders closed in the current block are skipped.
+func (s *SwapV2) loadBuyOrders(pair *PairV2, _ *Limit, _ int) []uint32 {
+	startKey := append(append([]byte{mainPrefix}, pair.pathOrders()...), byte(0), byte(0))
 	endKey := append(append(append([]byte{mainPrefix}, pair.pathOrders()...), byte(0), byte(255)), id2Bytes(math.MaxUint32)...)
-	var startKey = append(append([]byte{mainPrefix}, pair.pathOrders()...), byte(0), byte(0))
 
-	var loadedAll bool
-	ids := pair.loadedBuyOrderIDs()
-	if len(ids) != 0 && ids[len(ids)-1] == 0 {
-		loadedAll = true
-		ids = ids[: len(ids)-1 : len(ids)-1]
-	}
-
-	if fromOrder == nil && len(ids) >= limit {
-		return ids[:limit:limit]
-	}
-
-	k := 1
 	var slice []uint32
-	for i, id := range ids {
-		if id == fromOrder.ID() {
-			if len(ids[i+1:]) < limit {
-				slice = append(slice, ids[i+1:]...)
-				k += len(ids[i+1:])
-				fromOrder = pair.order(ids[len(ids)-1])
-				break
-			}
-
-			return ids[i+1 : i+limit+1 : i+limit+1]
-		}
-	}
-
-	if loadedAll {
-		return append(slice, 0)
-	}
-
-	if fromOrder != nil {
-		startKey = pricePath(pair.PairKey, fromOrder.OldSortPrice(), fromOrder.id+1, false) // todo: tests OldSortPrice
-	}
-
-	var has bool
 	s.immutableTree().IterateRange(startKey, endKey, true, func(key []byte, _ []byte) bool {
 		id := binary.BigEndian.Uint32(key[len(key)-4:])
 
-		l, ok := pair.orders.list[id]
-		if ok && l == nil {
+		if l, ok := pair.orders.list[id]; ok && l == nil {
 			return false
 		}
 
-		has = true
-		if k > limit {
-			return true
-		}
-
 		slice = append(slice, id)
-		k++
 		return false
 	})
+	slice = append(slice, 0)
 
-	if !has || len(slice) < limit {
-		slice = append(slice, 0)
-	}
-
-	pair.setLoadedBuyOrders(append(ids, slice...))
+	pair.setLoadedBuyOrders(slice)
 	return slice
 }
 
@@ -987,67 +945,26 @@ func (s *SwapV2) loadOrder(id uint32) *Limit {
 	return order
 }
 
-func (s *SwapV2) loadSellOrders(pair *PairV2, fromOrder *Limit, limit int) []uint32 {
+// loadSellOrders returns the ids of all committed sell orders of the pair in book order, followed
+// by the end marker 0. Orders closed in the current block are skipped.
+func (s *SwapV2) loadSellOrders(pair *PairV2, _ *Limit, _ int) []uint32 {
 	startKey := append(append([]byte{mainPrefix}, pair.pathOrders()...), byte(1), byte(0))
-	var endKey = append(append(append([]byte{mainPrefix}, pair.pathOrders()...), byte(1), byte(255)), id2Bytes(math.MaxUint32)...)
+	endKey := append(append(append([]byte{mainPrefix}, pair.pathOrders()...), byte(1), byte(255)), id2Bytes(math.MaxUint32)...)
 
-	var loadedAll bool
-	ids := pair.loadedSellOrderIDs()
-	if len(ids) != 0 && ids[len(ids)-1] == 0 {
-		loadedAll = true
-		ids = ids[: len(ids)-1 : len(ids)-1]
-	}
-
-	if fromOrder == nil && len(ids) >= limit {
-		return ids[:limit:limit]
-	}
-	k := 1
 	var slice []uint32
-	for i, id := range ids {
-		if id == fromOrder.ID() {
-			if len(ids[i+1:]) < limit {
-				slice = append(slice, ids[i+1:]...)
-				k += len(ids[i+1:])
-				fromOrder = pair.order(ids[len(ids)-1])
-				break
-			}
-
-			return ids[i+1 : i+limit+1 : i+limit+1]
-		}
-	}
-
-	if loadedAll {
-		return append(slice, 0)
-	}
-
-	if fromOrder != nil {
-		endKey = pricePath(pair.PairKey, fromOrder.OldSortPrice(), fromOrder.id, true)
-	}
-
-	var has bool
-	s.immutableTree().IterateRange(startKey, endKey, false, func(key []byte, value []byte) bool {
+	s.immutableTree().IterateRange(startKey, endKey, false, func(key []byte, _ []byte) bool {
 		id := math.MaxUint32 - binary.BigEndian.Uint32(key[len(key)-4:])
 
-		l, ok := pair.orders.list[id]
-		if ok && l == nil {
+		if l, ok := pair.orders.list[id]; ok && l == nil {
 			return false
 		}
 
-		has = true
-		if k > limit {
-			return true
-		}
-
 		slice = append(slice, id)
-		k++
 		return false
 	})
+	slice = append(slice, 0)
 
-	if !has || len(slice) < limit {
-		slice = append(slice, 0)
-	}
-
-	pair.setLoadedSellOrders(append(ids, slice...))
+	pair.setLoadedSellOrders(slice)
 	return slice
 }
 
@@ -1130,83 +1047,17 @@ func (p *PairV2) orderSellLoadToIndex(index int) *Limit {
 	p.deletedSellOrderIDs().mu.Lock()
 	defer p.deletedSellOrderIDs().mu.Unlock()
 
+	// The whole side of the book is kept in memory (ids only), terminated by 0.
+	// A partially loaded list cannot be re-sorted correctly: the place of a re-priced, new or
+	// closed order relative to the orders that are still on disk is unknown, so trades skipped,
+	// repeated or mis-ordered orders depending on how much of the book happened to be loaded.
 	orders := p.sellOrderIDs()
+	if len(orders) == 0 || orders[len(orders)-1] != 0 {
+		orders = p.loadSellOrders(p, nil, 0)
+	}
 
-	var fromOrder *Limit
-	// если массив не пустой, то пересортировать, если есть грязные!
-	if len(orders) != 0 {
-		// если есть грязные.
-		if p.hasUnsortedSellOrders() || p.hasDeletedSellOrders() {
-			// пересортируем, что бы лист почистился и пересортировался
-
-			needLoadMore := len(p.deletedSellOrderIDs().list) - len(orders)
-			if lastI := len(orders) - 1; lastI >= 0 && orders[lastI] != 0 {
-				fromOrder = p.order(orders[lastI])
-				needLoadMore++
-			}
-			if needLoadMore >= 0 {
-				orders = append(orders, p.loadSellOrders(p, fromOrder, needLoadMore)...)
-			}
-			orders, _ = p.updateDirtyOrders(orders, true)
-			lastI := len(orders) - 1
-			// если загружены не все
-			if lastI >= 0 && orders[lastI] != 0 {
-				// проверяем есть ли среди этого массива, элемент с нужным индексом
-				if index > lastI {
-					//log.Println("b")
-					// загрузим с последнего нужное количество и отсортируем
-					fromOrder = p.order(orders[lastI])
-					loadedNextOrders := p.loadSellOrders(p, fromOrder, index-lastI)
-					resortedOrders, unsets := p.updateDirtyOrders(append(orders, loadedNextOrders...), true)
-					//resortedOrders, unsets := p.updateDirtyOrders(append(orders, loadedNextOrders...), true)
-					// проверим загружены ли все
-					lastJ := len(resortedOrders) - 1
-					if resortedOrders[lastJ] != 0 {
-						//log.Println("c")
-						// среди них не может быть использованных иначе бы они были загружены ранее,
-						// но могут быть удаленные удаленных, проверим
-						for ; index > lastJ && lastJ >= 0 && resortedOrders[lastJ] != 0 && p.hasDeletedSellOrders() && unsets > 0; lastJ = len(resortedOrders) - 1 {
-							//log.Println("d")
-							fromOrder = p.order(resortedOrders[lastI])
-							loadedNextOrders := p.loadSellOrders(p, fromOrder, index-lastI+unsets)
-							var resortLoadedNextOrders []uint32
-							resortLoadedNextOrders, unsets = p.updateDirtyOrders(loadedNextOrders, true)
-							resortedOrders = append(resortedOrders, resortLoadedNextOrders...)
-						}
-					}
-					orders = resortedOrders
-				}
-			}
-		} else {
-			// проверим количество
-			lastI := len(orders) - 1
-			// если загружены не все и их не достаточно, то подгрузить
-			if orders[lastI] != 0 && index > lastI {
-				//log.Println("e")
-				fromOrder = p.order(orders[lastI])
-				loadedNextOrders := p.loadSellOrders(p, fromOrder, index-lastI)
-				// тк нет грязных, то просто складываем
-				orders = append(orders, loadedNextOrders...)
-			}
-		}
-	} else {
-		num := index
-		for {
-			orders = append(orders, p.loadSellOrders(p, fromOrder, num+1)...)
-			num = 0
-			if p.hasUnsortedSellOrders() || p.hasDeletedSellOrders() {
-				orders, num = p.updateDirtyOrders(orders, true)
-			}
-			if num <= 0 {
-				break
-			}
-			lenOrders := len(orders)
-			if lenOrders != 0 && orders[lenOrders-1] != 0 {
-				fromOrder = p.order(orders[lenOrders-1])
-			} else {
-				break
-			}
-		}
+	if p.hasUnsortedSellOrders() || p.hasDeletedSellOrders() {
+		orders, _ = p.updateDirtyOrders(orders, true)
 	}
 
 	p.setSellOrders(orders)
@@ -1218,9 +1069,7 @@ func (p *PairV2) orderSellLoadToIndex(index int) *Limit {
 		return nil
 	}
 
-	order := p.order(orders[index])
-
-	return order
+	return p.order(orders[index])
 }
 
 func (p *PairV2) orderSellByIndex(index int) *Limit {
